@@ -15,11 +15,6 @@ fn oracle() -> Oracle {
     Arc::new(|run: &Run, out: &mut Vec<Finding>| {
         // deadlocks surface as failed executions; here only the liveness probes of the epilogue are checked:
         // the worker acknowledged a put, the sweeper finished a sweep, the consumer applied a batch.
-        for c in run.calls.iter().filter(|c| c.thread == PHASE_POST) {
-            if let Res::Panicked(m) = &c.res {
-                out.push(Finding::new("caller-panic", format!("panic:{}", normalize_panic(m)), format!("{} panicked: {}", c.op.short(), m)));
-            }
-        }
         if !run.program.has_shutdown() {
             if let Some(p) = run.calls.iter().find(|c| c.thread == PHASE_POST && matches!(c.op, Op::Put { .. })) {
                 if run.status_of(PHASE_POST, p.idx).is_none() {
